@@ -3,6 +3,8 @@
 Three oracle layers per generated project (DESIGN.md C05), all on the REAL build.ninja written by the real
 `meson setup` and executed by mini-ninja with the real gcc/ar/python:
 
+  1b. undeclared byproducts: a build-dir file written by an edge that no statement declares, and written or read
+     by another edge that is not ordered with it, is a write-write / write-read race => violation.
   1. race detector over one traced (strace) clean build: every file an edge e observed (successful
      open-for-read, execve, stat-family) that is an output of an executed edge p != e must have p among
      e's declared transitive ancestors (explicit + implicit + order-only).  Otherwise: *candidate*.
@@ -555,7 +557,7 @@ def run_project(task: dict) -> dict:
     proj = task['proj']
     res: dict = {'index': proj.get('index'), 'key': proj['key'], 'features': proj['features'], 'blocks': proj['blocks'],
                  'counts': {}, 'violations': [], 'status': 'ok', 'notes': [], 'cells': {}, 'cfg': {},
-                 'benign': [], 'negdeps': []}
+                 'benign': [], 'negdeps': [], 'byproducts': []}
     cnt = res['counts']
 
     def bump(k: str, n: int = 1) -> None:
@@ -631,15 +633,31 @@ def run_project(task: dict) -> dict:
         # ---- layer 1: race detector --------------------------------------------------------
         executed = set(b.executed)
         cands: T.Dict[int, T.List[T.Tuple[str, int, str]]] = {}
+        wrote: T.Dict[int, T.Set[str]] = {}     # edge -> build-dir files it wrote (successful, not directory ops)
+        readf: T.Dict[int, T.Set[str]] = {}     # edge -> build-dir files it opened for reading / executed
+        ancs: T.Dict[int, T.Set[int]] = {}
         for i in b.executed:
             e = b.m.edges[i]
             evs, st = parse_strace(os.path.join(b.trace, f'{i}.strace'), b.bdir)
+            wrote[i] = set()
+            readf[i] = set()
+            for ev in evs:
+                if not ev.ok or ev.call in ('mkdir', 'mkdirat', 'rmdir'):
+                    continue
+                rp = b.rel(ev.path)
+                if rp is None:
+                    continue
+                if ev.kind == 'write':
+                    wrote[i].add(rp)
+                elif ev.kind in ('read', 'exec'):
+                    readf[i].add(rp)
             bump('strace_lines', st['lines'])
             bump('strace_unparsed', st['unparsed'])
             bump('edges_traced')
             if st['calls'] == 0:
                 bump('edges_with_empty_trace')
             anc = b.m.ancestors(e)
+            ancs[i] = anc
             seen: T.Set[T.Tuple[str, str, bool]] = set()
             for ev in evs:
                 if ev.kind == 'write':
@@ -664,6 +682,57 @@ def run_project(task: dict) -> dict:
                     bump('negative_dependency_notes')
                     if len(res['negdeps']) < 3:
                         res['negdeps'].append({'edge': e.all_outputs[:1], 'probed': o, 'producer': p.all_outputs[:1]})
+
+        # ---- layer 1b: undeclared byproducts shared by unordered steps -------------------------
+        # A build-dir file written by edge w that no statement declares (not an output of any edge, not w's depfile
+        # or response file, not meson's own bookkeeping dirs) is an undeclared byproduct.  If another edge j wrote or
+        # read the same path and neither is an ancestor of the other, the two steps communicate through a file the
+        # graph does not know: a write-write / write-read race that some parallel schedule can interleave.
+        byprod: T.Dict[str, T.Set[int]] = {}
+        for i in b.executed:
+            e = b.m.edges[i]
+            own = set(e.all_outputs)
+            for key in ('depfile', 'rspfile'):
+                v = e.get(key)
+                if v:
+                    own.add(mn.canon(v))
+            for f in wrote[i]:
+                if f in own:
+                    continue
+                bump('writes_outside_declared_outputs')
+                if f.startswith(('meson-logs/', 'meson-private/', 'meson-info/')):
+                    bump('writes_to_meson_bookkeeping')
+                    continue
+                pf = b.m.producer.get(f)
+                if pf is not None:
+                    if not pf.is_phony and pf.idx != i:
+                        bump('writes_to_another_edge_output')
+                    continue
+                byprod.setdefault(f, set()).add(i)
+        bump('undeclared_byproducts', len(byprod))
+        for f in sorted(byprod)[:3]:
+            res['byproducts'].append({'file': f, 'written_by': [rule_class(b.m.edges[w]) for w in sorted(byprod[f])]})
+        reported: T.Set[T.Tuple[int, int, str]] = set()
+        for f, writers in sorted(byprod.items()):
+            for w in sorted(writers):
+                for j in b.executed:
+                    if j == w or (f not in wrote[j] and f not in readf[j]):
+                        continue
+                    bump('byproduct_sharings_checked')
+                    if j in ancs[w] or w in ancs[j]:
+                        bump('byproduct_sharings_ordered')
+                        continue
+                    pair = (min(w, j), max(w, j), f)
+                    if pair in reported:
+                        continue
+                    reported.add(pair)
+                    ew, ej = b.m.edges[w], b.m.edges[j]
+                    how = 'write-write' if f in wrote[j] else 'write-read'
+                    violation(f'undeclared-shared-byproduct:{how}:{rule_class(ew)}-and-{rule_class(ej)}',
+                              {'layer': 'race-detector-byproducts', 'file': f, 'how': how,
+                               'edge_a': edge_brief(ew), 'edge_b': edge_brief(ej),
+                               'command_a': ew.get('command')[:400], 'command_b': ej.get('command')[:400],
+                               'note': 'neither step is a declared ancestor of the other; the file is declared by no build statement'})
 
         # ---- layer 2: hermetic replay ------------------------------------------------------
         real = [i for i in b.executed]
@@ -828,6 +897,11 @@ DIRECTED: T.List[T.Tuple[T.List[str], T.Dict[str, T.Any]]] = [
     # link_whole: of a static library into a shared library and into an executable
     (['libs'], {'libs.kind.0': 'static_library', 'libs.kind.1': 'shared_library', 'libs.kind.2': 'static_library',
                 'libs.kind.3': 'static_library', 'libs.how': 'link_whole', 'libs.exe_whole': True}),
+    # shared library including a generated .inc from a two-output generator (.inc + .c)
+    (['generator'], {'generator.two': True, 'generator.two_suffix': 'inc', 'generator.libkind': 'shared_library',
+                     'generator.depends': 'none', 'generator.rely': False}),
+    # two captured outputs with the same stem in one directory
+    (['ct_header'], {'ct_header.variant': 'capture-pair'}),
     (['subproject', 'genlist_chain'], {'genlist_chain.ct': True, 'genlist_chain.nested': True}),
     (['generator', 'ct_object', 'ct_header'], {'generator.depends': 'process', 'ct_object.how': 'archive',
                                                'ct_header.variant': 'index'}),
@@ -897,6 +971,10 @@ def aggregate(chk: common.Check, results: T.List[dict]) -> None:
             chk.notes.setdefault('benign_candidates', [])
             if len(chk.notes['benign_candidates']) < 8:
                 chk.notes['benign_candidates'].append(bn)
+        for bp in r.get('byproducts', []):
+            chk.notes.setdefault('undeclared_byproducts_unshared', [])
+            if len(chk.notes['undeclared_byproducts_unshared']) < 10:
+                chk.notes['undeclared_byproducts_unshared'].append(bp)
         for nd in r['negdeps']:
             chk.notes.setdefault('negative_dependency', [])
             if len(chk.notes['negative_dependency']) < 6:
@@ -960,7 +1038,7 @@ def main() -> int:
     if st_problems:
         chk.inconclusive.append('strace parser self-test failed: ' + '; '.join(st_problems)[:400])
     quick = chk.tier == 'quick'
-    nproj = 28 if quick else 300
+    nproj = 30 if quick else 300
     nsched = 6 if quick else 20
     budget = float(os.environ.get('VERIF_C05_BUDGET', '0')) or (150.0 if quick else 1080.0)
     deadline = chk.t0 + budget
